@@ -5,6 +5,7 @@
 package aggregate
 
 //@ func NewHashAggregate
+//@   assigns nothing
 //@   requires stepsBatch >= 0
 //@   ensures[C08] err-is-unsupported: result1 != nil ==> (result1.isNS || result1.isNI) && result0 == nil
 //@   ensures ok-nonnil: result1 == nil ==> result0 != nil
@@ -16,6 +17,7 @@ package aggregate
 //@       cast(result0, *aggregate.aggregate).by == by && cast(result0, *aggregate.aggregate).aggregation == aggregation
 
 //@ func NewKHashAggregate
+//@   assigns nothing
 //@   requires stepsBatch >= 0
 //@   ensures[C08] never-fails: result1 == nil && result0 != nil
 // The label hash only covers every grouping label if the list is sorted (C04; C11: whatever order the query wrote them in):
@@ -61,6 +63,7 @@ package aggregate
 //@   ensures[C04] group: result == 1.0
 
 //@ func newVectorizedTables
+//@   assigns nothing
 //@   requires stepsBatch >= 0
 //@   ensures[C08] err-is-unsupported: result1 != nil ==> result1.isNS && isnil(result0)
 //@   ensures[C04,C18] one-table-per-step: result1 == nil ==> len(result0) == stepsBatch && (forall i in 0..stepsBatch :: result0[i] != nil)
@@ -136,17 +139,20 @@ package aggregate
 //@     (forall j in 0..len(a.inputToHeap) :: 0 <= a.hidx[j] && a.hidx[j] < len(a.heaps) && a.inputToHeap[j] == a.heaps[a.hidx[j]])
 //@ pred heapsEmpty(a) = forall j in 0..len(a.heaps) :: len(a.heaps[j].entries) == 0
 //@ func (*kAggregate).aggregate
+// Written: the batch under construction (one more vector), and the heaps of the operator.
+//@   assigns *result, elems(execution/model.StepVector)@*result, elems(execution/aggregate.entry), execution/aggregate.samplesHeap.entries
 //@   requires kInv(a) && result != nil && len(SampleIDs) == len(samples) && (forall i in 0..len(SampleIDs) :: SampleIDs[i] < len(a.inputToHeap))
 //@   requires[C07] heaps-empty-between-steps: heapsEmpty(a)
 //@   ensures[C04,C18] one-output-vector-per-step: len(*result) == old(len(*result)) + 1
+//@   ensures batch-buffer-kept-or-new: ref(*result) == old(ref(*result)) || fresh(*result)
 //@   ensures[C04,C18] stamped-with-the-step: (*result)[len(*result)-1].T == t
 //@   ensures[C04,C18] ids-and-values-pair-up: len((*result)[len(*result)-1].SampleIDs) == len((*result)[len(*result)-1].Samples)
 //@   ensures[C04] nothing-selected-below-one: k < 1 ==> len((*result)[len(*result)-1].SampleIDs) == 0
 //@   ensures[C07] heaps-empty-again: forall j in 0..len(a.heaps) :: len(a.heaps[j].entries) == 0
 //@   loop 0 invariant kInv(a) && result != nil && len(*result) == old(len(*result)) && (k < 1 ==> heapsEmpty(a))
-//@   loop 1 invariant kInv(a) && result != nil && len(*result) == old(len(*result)) && s.T == t && len(s.SampleIDs) == len(s.Samples) &&
+//@   loop 1 invariant kInv(a) && result != nil && len(*result) == old(len(*result)) && s.T == t && len(s.SampleIDs) == len(s.Samples) && fresh(s.SampleIDs) && fresh(s.Samples) &&
 //@       (forall j in 0..rangeindex+1 :: len(a.heaps[j].entries) == 0) && (k < 1 ==> heapsEmpty(a) && len(s.SampleIDs) == 0)
-//@   loop 2 invariant kInv(a) && result != nil && len(*result) == old(len(*result)) && s.T == t && len(s.SampleIDs) == len(s.Samples) &&
+//@   loop 2 invariant kInv(a) && result != nil && len(*result) == old(len(*result)) && s.T == t && len(s.SampleIDs) == len(s.Samples) && fresh(s.SampleIDs) && fresh(s.Samples) &&
 //@       (k < 1 ==> len(s.SampleIDs) == 0)
 
 // kAggregate.Next: one output vector per input vector; the k of step i is the sample the parameter
@@ -188,7 +194,9 @@ package aggregate
 //@   loop 0 invariant a != nil && a.next != nil && a.paramOp != nil && len(in) <= len(a.params) && !isnil(in)
 //@   loop 0 invariant[C04] parameter-of-step-or-NaN: forall j in 0..rangeindex+1 :: a.params[j] == ite(j < len(args), args[j].Samples[0], nan())
 //@   loop 1 invariant a != nil && a.next != nil && a.paramOp != nil && len(in) <= len(a.params) && len(in) <= len(args) && !isnil(in) && kInv(a) && heapsEmpty(a) && len(a.inputToHeap) == a.next.nSeries &&
-//@       len(result) == rangeindex + 1
+//@       len(result) == rangeindex + 1 && ref(result) != ref(in) && allocated(in) && (ref(result) != ref(args) || isnil(args)) && allocated(args)
+//@   loop 1 invariant input-as-delivered: forall k in 0..len(in) :: len(in[k].SampleIDs) == len(in[k].Samples) && (forall j in 0..len(in[k].SampleIDs) :: in[k].SampleIDs[j] < a.next.nSeries)
+//@   loop 1 invariant[C04] parameters-as-delivered: forall j in 0..len(in) :: a.params[j] == args[j].Samples[0]
 
 // ---- scalar_table.go: the accumulators of the grouped aggregation table (C04, C07) ----------------
 // Every accumulator follows one protocol (statement of C04/C07: each step is reduced on its own):
@@ -290,6 +298,7 @@ package aggregate
 // name are deleted (the reference engine: lb.Del(grouping...); lb.Del(labels.MetricName)); for by(...)
 // only the grouping labels are kept. The label algebra itself (labels.Builder, hashing) is assumed.
 //@ func hashMetric
+//@   assigns nothing
 //@   requires[C04,C11] grouping-labels-sorted: sortedNames(grouping)
 //@   ensures[C04,C19] without-deletes-the-grouping-labels-and-the-metric-name: without ==> ncalls("labels.(*Builder).Del") == 2 && ncalls("labels.(*Builder).Keep") == 0
 //@   ensures[C04,C19] by-keeps-only-the-grouping-labels: !without && len(grouping) > 0 ==> ncalls("labels.(*Builder).Keep") == 1 && ncalls("labels.(*Builder).Del") == 0
